@@ -2,7 +2,7 @@
    kind 0301: FS model vs the Linux kernel (random syscall sequences in a chroot jail).
    kind 0302: real fsutil.Receive fed by a hostile sender vs recv_fs (see below). *)
 From Coq Require Import List NArith Bool.
-From FS Require Import Sx Model.Path Model.Stat Model.Validator Model.Fs Model.DiskWriterFs Model.RecvMeta Model.RecvSpec.
+From FS Require Import Sx Model.Path Model.Stat Model.Validator Model.Fs Model.DiskWriterFs Model.RecvFilter Model.RecvMeta Model.RecvSpec.
 Import ListNotations.
 Open Scope N_scope.
 Open Scope bool_scope.
@@ -227,7 +227,29 @@ Definition dec_pred (x : sx) : option (option (stat -> bool)) :=
   | _ => None
   end.
 
-Definition run_0302_opt (ops : list sx) (dest : bytes) (pks : list sx) (mg : N) (mo : option (stat -> bool)) (impl : sx) : sx :=
+(* ReceiveOpt.Filter: () = nil, ((path ...) uidadd gidadd): the filter answers false for the listed
+   paths and everything below them, and adds the two numbers to uid and gid of what it lets pass *)
+Definition below_any (ps : list bytes) (p : bytes) : bool :=
+  existsb (fun q => bytes_eqb q p || has_prefix (q ++ [sep]) p) ps.
+Definition dec_filter (x : sx) : option (option rfilter) :=
+  match x with
+  | SL [] => Some None
+  | SL [SL ps; SN ua; SN ga] =>
+    l <- omap (fun y => match y with SB p => Some p | _ => None end) ps ;;
+    Some (Some {| f_rej := below_any l;
+                  f_map := fun s => {| st_path := st_path s; st_mode := st_mode s; st_uid := N.land (st_uid s + ua) 4294967295;
+                                       st_gid := N.land (st_gid s + ga) 4294967295; st_size := st_size s; st_mtime := st_mtime s;
+                                       st_linkname := st_linkname s; st_devmajor := st_devmajor s; st_devminor := st_devminor s;
+                                       st_xattrs := st_xattrs s |} |})
+  | _ => None
+  end.
+
+(* "filter-rejected-hardlink-source" *)
+Definition sig_filter_link : bytes :=
+  [102;105;108;116;101;114;45;114;101;106;101;99;116;101;100;45;104;97;114;100;108;105;110;107;45;115;111;117;114;99;101].
+
+Definition run_0302_opt (ops : list sx) (dest : bytes) (pks : list sx) (mg : N) (mo : option (stat -> bool))
+                        (flt : option rfilter) (impl : sx) : sx :=
   match impl with
   | SL [SN cls; SN t0; SB destreal; bf; af] =>
     match run_ops (ctx_init, fs_init) ops [], omap dec_packet pks, sx_list dec_rawent bf, sx_list dec_rawent af with
@@ -235,18 +257,28 @@ Definition run_0302_opt (ops : list sx) (dest : bytes) (pks : list sx) (mg : N) 
       match resolve_ino ctx_init f0 dest true, resolve_ino ctx_init f0 dest false with
       | inl d0, inl dlno =>
         let dl := match get f0 dlno with Some {| i_kind := KLink _ |} => true | _ => false end in
-        let st := recv_fs_opt f0 1 d0 dl (negb (N.eqb mg 0)) mo [] packets in
+        let st := recv_fs_opt f0 1 d0 dl (negb (N.eqb mg 0)) mo flt [] packets in
         (* A receive loop that dies in the closed-channel panic runs its deferred errgroup Done
            on the way down: Receive's g.Wait() returns nil and the epilogue of a metadata transfer
            races with the death of the process — dest/.fsutil-metadata is found untouched,
-           removed, empty or written.  For these runs the correspondence (not the specification
-           below) leaves that one entry out on both sides. *)
+           removed, empty or written, and the mtime of dest with it.  For these runs the
+           correspondence (not the specification below) leaves that one entry and the mtime of
+           the destination directory out on both sides. *)
         let racy := match mo with Some _ => N.eqb (recv_class st) 3 | None => false end in
         let lp := child_path destreal listing_name in
         let keep (p : bytes) := negb (racy && (bytes_eqb p lp || strictly_below lp p)) in
+        let blank_m (e : bytes * N * inode) :=
+          match e with (p, i, n) =>
+            if racy && bytes_eqb p destreal then (p, i, {| i_kind := i_kind n; i_meta := with_mtime (i_meta n) 0 |}) else e end in
+        let blank_i (e : rawent) :=
+          if racy && bytes_eqb (re_path e) destreal then
+            {| re_path := re_path e; re_ino := re_ino e; re_nlink := re_nlink e; re_type := re_type e; re_perm := re_perm e;
+               re_uid := re_uid e; re_gid := re_gid e; re_mtime := 0; re_ctime := re_ctime e; re_rdev := re_rdev e;
+               re_target := re_target e; re_xattrs := re_xattrs e; re_content := re_content e |}
+          else e in
         let model := SL [SN (recv_class st); enc_snapshot (snapshot_from f0 1);
-                         enc_snapshot (filter (fun e : bytes * N * inode => keep (fst (fst e))) (snapshot_from (r_fs st) 1))] in
-        let implv := SL [SN cls; conv_snapshot t0 before; conv_snapshot t0 (filter (fun e => keep (re_path e)) after)] in
+                         enc_snapshot (map blank_m (filter (fun e : bytes * N * inode => keep (fst (fst e))) (snapshot_from (r_fs st) 1)))] in
+        let implv := SL [SN cls; conv_snapshot t0 before; conv_snapshot t0 (map blank_i (filter (fun e => keep (re_path e)) after))] in
         (* specification, on the raw snapshots *)
         let shared := map re_ino (filter (fun e => strictly_below destreal (re_path e)) before) in
         let contained := sx_eqb (outside_view destreal shared before) (outside_view destreal shared after) in
@@ -257,10 +289,30 @@ Definition run_0302_opt (ops : list sx) (dest : bytes) (pks : list sx) (mg : N) 
                         end in
         let ran := N.leb cls 3 in
         let code := (if contained then 0 else 1) + (if rejected then 0 else 2) + (if ran then 0 else 4) in
+        (* known finding filter-rejected-hardlink-source: with a Filter that rejects a subtree the
+           hard-link validator still records the rejected entries, so a transferred hard link may
+           name a source the disk writer skipped; link(2) then resolves dest/<Linkname> through
+           whatever the destination holds there.  Signature: there are transferred hard links whose
+           Linkname the filter rejects, and the outside views differ only in link count / ctime of
+           the inodes found afterwards under the names of those links. *)
+        let bad_links := match flt with
+                         | None => []
+                         | Some fl =>
+                           flat_map (fun pk => match pk with
+                                               | PStat (Some s) =>
+                                                 if is_hardlink_stat s && negb (f_rej fl (st_path s)) && f_rej fl (st_linkname s)
+                                                    && match mo with Some sel => sel s | None => true end
+                                                 then [child_path destreal (st_path s)] else []
+                                               | _ => [] end) packets
+                         end in
+        let linked := map re_ino (filter (fun e => mem_bytes (re_path e) bad_links) after) in
         let sig := if negb contained && rejected && ran
                       && sx_eqb (outside_view_nometa destreal shared before) (outside_view_nometa destreal shared after)
                    then [SL [SB [115; 105; 103]; SB [104;97;114;100;108;105;110;107;45;114;101;115;116;97;109;112;115;45;
                                                      115;104;97;114;101;100;45;105;110;111;100;101]]]
+                   else if negb contained && rejected && ran && negb (is_nil linked)
+                           && sx_eqb (outside_view destreal (shared ++ linked) before) (outside_view destreal (shared ++ linked) after)
+                   then [SL [SB [115; 105; 103]; SB sig_filter_link]]
                    else [] in
         verdict model implv (contained && rejected && ran) (SL (SN code :: of_optnat bad :: sig))
       | _, _ => v_malformed
@@ -272,11 +324,11 @@ Definition run_0302_opt (ops : list sx) (dest : bytes) (pks : list sx) (mg : N) 
 
 Definition run_0302 (input impl : sx) : sx :=
   match input with
-  | SL [SL ops; SB dest; SL pks; SN mg] => run_0302_opt ops dest pks mg None impl
-  | SL [SL ops; SB dest; SL pks; SN mg; SL [mox; SL []]] =>
-    match dec_pred mox with
-    | Some mo => run_0302_opt ops dest pks mg mo impl
-    | None => v_malformed
+  | SL [SL ops; SB dest; SL pks; SN mg] => run_0302_opt ops dest pks mg None None impl
+  | SL [SL ops; SB dest; SL pks; SN mg; SL [mox; fx]] =>
+    match dec_pred mox, dec_filter fx with
+    | Some mo, Some flt => run_0302_opt ops dest pks mg mo flt impl
+    | _, _ => v_malformed
     end
   | _ => v_malformed
   end.
